@@ -405,6 +405,11 @@ def interleaving_cases(draw, min_pre=None):
 ORDERS = (("0", "forward"), ("1", "reverse"), ("2", "rotated"), ("4242", "evens-first"), ("random", "forward"))
 # ... and its own REPETITION of every call (the last repetition is the one compared): the k-th call of a process, a counter, a bounded
 # cache that has started to evict are reached at different calls in different children
+# ... and its own DEPLOYMENT: interpreter flags (-O strips assert statements and __debug__ blocks, -OO docstrings too), time zone, locale,
+# working directory - things that are constant within one test process and differ between installations
+DEPLOYMENT = {("0", "forward"): ([], {}, None), ("1", "reverse"): (["-O"], {"TZ": "Pacific/Kiritimati"}, None),
+              ("2", "rotated"): ([], {"LC_ALL": "C", "LANG": "C", "TZ": "America/St_Johns"}, "/"),
+              ("4242", "evens-first"): (["-OO"], {"PYTHONUTF8": "1"}, None), ("random", "forward"): (["-X", "dev"], {"HOME": "/nonexistent"}, "/tmp")}
 REPS = {("0", "forward"): 1, ("1", "reverse"): 2, ("2", "rotated"): 3, ("4242", "evens-first"): 1, ("random", "forward"): 5}
 
 
@@ -421,8 +426,10 @@ def run_children(cases, tag):
         # every child is a fresh interpreter with its own hash seed AND its own execution order of the same calls: any state that
         # survives a call anywhere in the process (module- or class-level caches, memoised helpers) makes the orders disagree
         for hs, order in ORDERS:
-            env = dict(os.environ, PYTHONHASHSEED=hs)
-            p = subprocess.run([sys.executable, "-B", "-m", "vf.hashchild", path, order, str(REPS[(hs, order)])], capture_output=True, text=True, env=env, timeout=600)
+            flags, extra, cwd = DEPLOYMENT[(hs, order)]
+            env = dict(os.environ, PYTHONHASHSEED=hs, **extra)
+            p = subprocess.run([sys.executable, "-B", *flags, "-m", "vf.hashchild", path, order, str(REPS[(hs, order)])], capture_output=True, text=True, env=env,
+                               timeout=600, cwd=cwd)
             if p.returncode != 0:
                 raise HarnessError(f"hash-seed child failed: {p.stderr[-2000:]}")
             outs[(hs, order)] = json.loads(p.stdout)
